@@ -48,6 +48,44 @@ def ghost_correspondence(ctx, n):
                    '' if not lists[0] else 'index-sum model and compute_linear_norm_sample differ on %s' % [cases[i] for i in lists[0][:2]])
 
 
+def emb_correspondence(ctx, n):
+    """the real norm sampler and grad sampler of nn.Embedding on integer tensors vs ghost_sq_embedding / true_norm_sq_embedding on Z"""
+    r = ctx.rng
+    cases = []
+    for _ in range(n):
+        V, L, D, nb = r.randint(1, 5), r.randint(1, 4), r.randint(1, 3), r.randint(1, 3)
+        pad = r.choice([None, None, 0, V - 1, r.randrange(V)])
+        cases.append({'V': V, 'L': L, 'D': D, 'pad': pad, 'ids': [[r.randrange(V) if r.random() < 0.7 or pad is None else pad for _ in range(L)] for _ in range(nb)],
+                      'g': [[[r.randint(-3, 3) for _ in range(D)] for _ in range(L)] for _ in range(nb)]})
+    res = vlib.run_impl('ghost_norms.py', {'emb': cases})['emb']
+    items, owners = [], []
+    for c, rr in zip(cases, res):
+        ctx.case(c, kind='ghost-emb/%s' % ('pad' if c['pad'] is not None else 'nopad'),
+                 nontrivial=any(len(set(row)) < len(row) for row in c['ids']) or (c['pad'] is not None and any(c['pad'] in row for row in c['ids'])))
+        if rr['n2'] != rr['t2'] or rr['resid'] > 1e-6:
+            ctx.fail('ghost-embedding-norm', 'nn.Embedding(padding_idx=%s): ghost norm^2 %s != norm^2 of the per-sample gradient %s' % (c['pad'], rr['n2'], rr['t2']), c)
+        for i in range(len(c['ids'])):
+            items.append('((%s, %d%%nat, %d%%nat, %d%%nat, [%s], [%s]), %s)' % (
+                'None' if c['pad'] is None else '(Some %d%%nat)' % c['pad'], c['V'], c['L'], c['D'], '; '.join('%d%%nat' % v for v in c['ids'][i]),
+                '; '.join(zl(x) for x in c['g'][i]), zl([rr['n2'][i], rr['t2'][i]])))
+            owners.append(c)
+    header = 'From Coq Require Import ZArith List.\nFrom OV Require Import Base.Num Base.NumZ Model.GhostNorm Exec.RunGhost.\nImport ListNotations.\n'
+    body = ('Definition cases : list (option nat * nat * nat * nat * list nat * list (list Z) * list Z) := [\n ' + ';\n '.join(items) +
+            '\n].\nEval vm_compute in (bad_emb 0 cases).\n')
+    with vlib.CoqLock():
+        ok, out = vlib.coq_make(['Exec/RunGhost.vo'])
+        rc, out = vlib.coq_eval('cases_c02e_%d' % (ctx.seed % 100000), header, body) if ok else (1, out)
+    lists = vlib.parse_eval_lists(out)
+    if rc != 0 or len(lists) != 1:
+        ctx.obligation('correspondence:ghost-embedding-norm', False, 'case file failed: ' + out[-600:])
+        return
+    ctx.traces += len(items)
+    ctx.obligation('correspondence:ghost-embedding-norm', not lists[0],
+                   '' if not lists[0] else 'index model and compute_embedding_norm_sample / compute_embedding_grad_sample differ on %s' % [owners[i] for i in lists[0][:2]])
+    for i in lists[0][:1]:
+        ctx.fail('ghost-embedding-model-vs-impl', 'embedding norm sampler / grad sampler differ from the model', owners[i])
+
+
 def run_sens(ctx, n):
     cases = cc.gen_sens(ctx, n)
     res = vlib.run_impl('clip_numeric.py', {'sens': cases, 'step': []}, timeout=7200)['sens']
@@ -63,6 +101,7 @@ def run(ctx, gen_status):
     vlib.check_property_file(ctx, 'C02', gen_status, GENS)
     run_sens(ctx, ctx.n(120, 2500))
     ghost_correspondence(ctx, ctx.n(150, 1000))
+    emb_correspondence(ctx, ctx.n(120, 800))
     steps = cc.gen_step(ctx, ctx.n(25, 300))
     res = vlib.run_impl('clip_numeric.py', {'sens': [], 'step': steps}, timeout=7200)['step']
     cc.clip_factor_correspondence(ctx, steps, res, 'c02')
